@@ -135,6 +135,17 @@ class Builder:
         cmd = parts[0]
         if cmd == "source":
             self.add_source(parts[1], parts[2])
+        elif cmd == "generated":
+            # //@ generated <replay entry> <argument>: text produced on this run by an entry of the replay crate from data of /repo
+            # (e.g. the rule list parsed from public_suffix_list.dat); $REPO and $OUT are substituted; the text is emitted as it is
+            from . import cex
+            entry, arg = d.split(None, 2)[1:3]
+            outp = os.path.join("/verif/build", "gen_%s_%s.rs" % (self.name, entry.replace("-", "_")))
+            rep = cex.run_replay(entry, arg.replace("$REPO", self.repo).replace("$OUT", outp), timeout=300)
+            if rep.get("panicked") or not os.path.exists(outp):
+                raise LostAnchor("generated source %s: %s" % (entry, rep.get("detail")))
+            self.emit(open(outp).read() + "\n", "unit", file=os.path.basename(outp), line=1)
+            self.report.setdefault("generated_sources", []).append({"entry": entry, "arg": arg, "result": rep.get("detail")})
         elif cmd == "source-expanded":
             # //@ source-expanded <alias> <crate> <crate dir> <module path> <Struct>: the serde_workaround! expansion
             # for that struct, produced by rustc from the working tree on this run (vx/expand.py)
